@@ -305,6 +305,19 @@ def _shape_param(desc, form, b, u, p):
   return a.reshape(_lead(form, b, u) + (p,))
 
 
+def _is_missing(x, miv):
+  """x equals missing_input_value as TensorFlow compares them.
+
+  TensorFlow flushes float32 subnormals to zero, so a subnormal missing value
+  (an interior reference keypoint whose gap underflowed) equals an input of 0.0
+  - and vice versa - for the library although NumPy tells them apart.
+  """
+  tiny = 1.1754944e-38
+  x = np.asarray(x, np.float32)
+  return (x == np.float32(miv)) | (
+      (np.abs(x) < tiny) & (abs(float(miv)) < tiny))
+
+
 def _full(a, b, u):
   """Documented broadcast of a parameter tensor to (B, units, p), float64."""
   a = np.asarray(a, np.float64)
@@ -565,7 +578,7 @@ def _run_pwl(case, out, tf, tfl):
                   kind="shape", **sig)
       return
     xf = np.broadcast_to(x, (b, u))
-    m = (xf == np.float32(miv)) if miv is not None else np.zeros((b, u), bool)
+    m = _is_missing(xf, miv) if miv is not None else np.zeros((b, u), bool)
     y = y.astype(np.float64)
     ys[name], xs[name], miss[name] = y, xf, m
     live = ~m
